@@ -29,6 +29,8 @@ pub trait PF: Send + Sync {
     fn un(&self, op: u8, a: &[u64]) -> L;
     fn inverse(&self, a: &[u64], in_place: bool) -> Option<L>;
     fn pow(&self, a: &[u64], e: &[u64]) -> L;
+    /// pow_with_table on the table [a, a^2, a^4, ...] of the given length (built with `square`)
+    fn pow_with_table(&self, a: &[u64], table_len: usize, e: &[u64]) -> Option<L>;
     fn sop(&self, a: &[L], b: &[L]) -> Option<L>;
     /// kind 0 batch_inversion, 1 batch_inversion_and_mul, 2 serial_batch_inversion_and_mul
     fn batch_inv(&self, kind: u8, v: &[L], coeff: &[u64]) -> Vec<L>;
@@ -211,6 +213,15 @@ impl<P: FpConfig<N>, const N: usize> PF for Ad<P, N> {
     }
     fn pow(&self, a: &[u64], e: &[u64]) -> L {
         Self::l(Self::f(a).pow(e))
+    }
+    fn pow_with_table(&self, a: &[u64], table_len: usize, e: &[u64]) -> Option<L> {
+        let mut t = Vec::with_capacity(table_len);
+        let mut cur = Self::f(a);
+        for _ in 0..table_len {
+            t.push(cur);
+            cur.square_in_place();
+        }
+        Fp::<P, N>::pow_with_table(&t, e).map(Self::l)
     }
     fn sop(&self, a: &[L], b: &[L]) -> Option<L> {
         sop_arm!(a, b, 1, 2, 3, 4, 6, 9, 17)
